@@ -103,7 +103,36 @@ func (s *c14Set) middleware() *cors.Middleware {
 				}
 			}
 		}
-		mw, err := cors.NewMiddleware(cors.Config{Origins: []string{"https://example.com"}, RequestHeaders: spelled})
+		// the fields AROUND the header list vary from set to set too: none of them has a say in which discrete names are
+		// approved (lesson of seeded change C14-p: Authorization dropped from the set under credentials + wildcard methods)
+		cfg := cors.Config{Origins: []string{"https://example.com"}, RequestHeaders: spelled}
+		hc := hashString("cfg|" + strings.Join(s.names, ","))
+		cfg.Credentialed = hc&1 == 1
+		switch hc >> 1 % 3 {
+		case 1:
+			cfg.Methods = []string{"*"}
+		case 2:
+			cfg.Methods = []string{"PUT", "DELETE"}
+		}
+		switch hc >> 3 % 3 {
+		case 1:
+			cfg.MaxAgeInSeconds = -1
+		case 2:
+			cfg.MaxAgeInSeconds = 86400
+		}
+		if hc>>5&1 == 1 {
+			cfg.ResponseHeaders = []string{"*"}
+			if cfg.Credentialed {
+				cfg.ResponseHeaders = []string{"X-Exposed"}
+			}
+		}
+		if hc>>6&1 == 1 {
+			cfg.PreflightSuccessStatus = 200
+		}
+		if hc>>7&1 == 1 {
+			cfg.Origins = []string{"https://example.com", "https://*.example.org:*", "http://localhost:*"}
+		}
+		mw, err := cors.NewMiddleware(cfg)
 		if err != nil {
 			panic(fmt.Sprintf("C14: header set %q rejected: %v", s.names, err))
 		}
